@@ -28,7 +28,7 @@ theorem subIDs_enc (ids : List UInt32) (h : ∀ v ∈ ids, 1 ≤ v.toNat ∧ v.t
 
 theorem Publish.props_eq (p : Publish) (hu : UpsInRange p.userProps)
     (hs : ∀ v ∈ p.subscriptionIDs, 1 ≤ v.toNat ∧ v.toNat < 268435456) : p.props = propBytes p.occs := by
-  rw [(Tie.T2_publish p).1, encFields_eq, encUserProps_eq _ (ups_keys _ hu), subIDs_enc _ hs]
+  rw [(Tie.M2_publish p), encFields_eq, encUserProps_eq _ (ups_keys _ hu), subIDs_enc _ hs]
   simp only [Publish.occs, Publish.rep, propBytes_append, List.append_assoc]
 
 theorem propDef?_sub : propDef? 0x0b = some { id := 0x0b, ty := .vb, allowed := [3, 8], repeatable := [3] } := rfl
